@@ -71,7 +71,11 @@ func (n *Net) Apply(rng *Rng, b int, nodes int, steps []Step) []Step {
 			out = append(out, st)
 		}
 		if n.on("crash_restart", rng) {
-			out = append(out, Step{Kind: "crash", N: map[string]int64{"node": int64(rng.Intn(nodes))}})
+			kind := "crash"
+			if rng.Chance(1, 4) {
+				kind = "crash_end" // die between EndBlock and Commit
+			}
+			out = append(out, Step{Kind: kind, N: map[string]int64{"node": int64(rng.Intn(nodes))}})
 		}
 	}
 	if n.Enabled["tx_reorder"] && len(out) > 1 && rng.Intn(1000) < 3*n.Rate {
